@@ -7,6 +7,12 @@ CLAIMED = {
  'C01': ('exploration', 'property-based testing over generated graphs and schedules (proptest, SIM engine: real actor code on a harness-owned scheduler) with a history-invariant oracle',
          'Generated search over graphs x requested sets x schedules (message delivery, script completion, file-change notices) against a readiness / latest-word invariant checked at every start; no exhaustiveness claimed.',
          'Actor handlers are atomic between awaits in SIM; "start" = beginning of the build cycle (where the start condition is evaluated) and the script spawn.', 'DESIGN.md 4/C01'),
+ 'C02': ('exploration', 'property-based testing (proptest): generated declarations, trees and edit histories around the real incremental step, reference snapshot model as oracle (skipped => unchanged)',
+         'Generated histories between two calls of the real incremental::run on real scratch trees, decided against an independent snapshot model.',
+         'In-crate call of the incremental runner with a harness future standing for the script; files only (no symlinks).', 'DESIGN.md 4/C02'),
+ 'C03': ('exploration', 'property-based testing (proptest): resource-preserving histories and repeated invocations of the real incremental step; same reference model (unchanged => skipped)',
+         'Generated layouts (multi-project, colliding command text / relative paths, inherited resources) x neutral histories x 2-4 invocations.',
+         'Premise (state storable) evaluated by the harness.', 'DESIGN.md 4/C03'),
  'C04': ('exploration', 'property-based testing (proptest) with a deadlock oracle on controlled schedules (SIM)',
          'Generated graphs x schedules; liveness turned into safety: a state with nothing deliverable, no script running and unexecuted targets is a deadlock.',
          'SIM does not exercise queue capacities (relay unbounded there).', 'DESIGN.md 4/C04'),
@@ -19,6 +25,9 @@ CLAIMED = {
  'C08': ('exploration', 'property-based testing (proptest) with an exactly-once multiset oracle over the closure (SIM)',
          'Generated graphs with shared dependencies x duplicate requests x schedules.',
          'Closure computed by the harness from the generated graph.', 'DESIGN.md 4/C08'),
+ 'C09': ('exploration', 'property-based testing (proptest): differential of the real loader+resolver against an independent reference closure / cycle resolver over generated project sets',
+         'Generated project files with valid and broken reference graphs; verdict and resolved set compared.',
+         'Reference resolver written from the statement.', 'DESIGN.md 4/C09'),
  'C10': ('exploration', 'property-based testing (proptest) of black-box exit scenarios: generated graph x exit cause x instant (rendezvous), latency bound and /proc marker-scan oracle',
          'Generated scenarios against the real binary with real signals and processes.',
          'One wall-clock bound (5 s vs scripts that sleep 28 h); exec-form scripts.', 'DESIGN.md 4/C10'),
@@ -28,11 +37,23 @@ CLAIMED = {
  'C12': ('exploration', 'property-based testing (proptest) of generated trees and output declarations against the real binary; two-sided snapshot-diff oracle vs a reference expected-deleted set',
          'Generated projects/trees x --clean invocations; everything expected gone is gone and everything else is byte-identical.',
          'Listed output paths are never symlinks themselves; symlink entries to files matching a filter may go or stay.', 'DESIGN.md 4/C12'),
+ 'C13': ('exploration', 'property-based testing (proptest): producer/consumer arrangements, structural expectation on the resolver output plus behavioural skip/run model on the real incremental step',
+         'Generated arrangements x edits of producer outputs and look-alikes.',
+         'Consumer exercised through incremental::run; producer not executed in the INC part.', 'DESIGN.md 4/C13'),
+ 'C14': ('exploration', 'property-based testing (proptest) of grammar-generated project sets with injected defects against an independent validator; determinism over repeated loads',
+         'Generated project sets with defects of known verdict; accept/reject and meaning of names compared over 8 loads.',
+         'Validator over the generated AST; error texts not compared.', 'DESIGN.md 4/C14'),
+ 'C15': ('exploration', 'property-based testing (proptest): generated trees and declarations, real lister vs independent reference walker (MUST subset result subset MAY), watcher predicate agreement',
+         'Generated trees with odd names, .zinoma at any depth, symlinks.',
+         'Listed paths never symlinks / .zinoma.', 'DESIGN.md 4/C15'),
+ 'C19': ('exploration', 'property-based testing (proptest): generated project sets with overlapping target names; name-set equality, spelling and bare-reference oracles on the real loader/resolver',
+         'Generated project sets x requested spellings x references.',
+         'In-crate loader and resolver.', 'DESIGN.md 4/C19'),
  'C17': ('exploration', 'property-based testing (proptest) with withheld completions (SIM): ready => started at message-quiescent points',
          'Generated graphs x schedules in which scripts stay running as long as possible.',
          'One-shot runs without failures.', 'DESIGN.md 4/C17'),
 }
-ENGINE = {'C10':'BB','C12':'BB','C04':'SIM+BB','C01':'SIM+BB','C07':'SIM+BB','C08':'SIM+BB','C11':'SIM+BB','C17':'SIM+BB'}
+ENGINE = {'C02':'INC','C03':'INC','C09':'INC','C13':'INC','C14':'INC','C15':'INC','C19':'INC','C10':'BB','C12':'BB','C04':'SIM+BB','C01':'SIM+BB','C07':'SIM+BB','C08':'SIM+BB','C11':'SIM+BB','C17':'SIM+BB'}
 ALL = [json.loads(l)['id'] for l in open('/verif/properties.jsonl')]
 NA_REASON = 'check not built yet in this session (work in progress; to be decided with property-based testing as designed in DESIGN.md)'
 
@@ -50,6 +71,7 @@ def main():
       },
       'engines': [
         {'name': 'BB', 'path': 'harness/incrate/verif/bb.rs', 'serves_properties': ['C01','C04','C07','C08','C10','C11','C12','C17'], 'kind_free_text': 'the real binary (repo main()) on generated projects; trace files, /proc scans, snapshots; cases generated and shrunk by proptest'},
+        {'name': 'INC', 'path': 'harness/incrate/verif/inc_incr.rs', 'serves_properties': ['C02','C03','C09','C13','C14','C15','C19'], 'kind_free_text': 'real functions called in-crate (loader, resolver, lister, incremental::run) on generated scratch trees; proptest generation and shrinking'},
         {'name': 'SIM', 'path': 'harness/incrate/verif/sim.rs', 'serves_properties': ['C01','C04','C06','C07','C08','C11','C17','C20'], 'kind_free_text': 'real actor code polled by a single-threaded executor; virtual processes; generated schedules (proptest)'},
       ],
       'checks': [],
